@@ -101,10 +101,20 @@ def one_run(case):
                 wall=round(time.time() - t0, 3))
 
 
-def model_schedule(kind, n_ntf, fast_handler):
+def model_schedule(kind, n_ntf, fast_handler, proto="Pcur"):
     """event list (Coq syntax) of the model schedule that corresponds to a plan kind.
     workers 0..n_ntf-1 are the compressed sources; worker 0 is the delayed one."""
     ev = []
+    if proto == "Pfixed":
+        # creation + registration is ONE worker step (under the registry lock); a handler that arrives
+        # while a worker is inside that step waits for the lock, i.e. runs after the step
+        if kind in ("normal", "normal_1cpu"):
+            for i in range(n_ntf):
+                ev += ["EW %d" % i] * 2       # create+register, summary sent
+            return ev + ["EM", "EM"]
+        for i in range(n_ntf):
+            ev += ["EW %d" % i]
+        return ev + ["EH", "EH", "EH", "EM", "EM"]
     if kind in ("normal", "normal_1cpu"):
         for i in range(n_ntf):
             ev += ["EW %d" % i] * 3           # create, register, summary sent
@@ -132,7 +142,12 @@ def model_schedule(kind, n_ntf, fast_handler):
 def run(ctx):
     quick = ctx.quick()
     reps = 1 if quick else 6
-    vlib.proof_stage(ctx, PROP_FILE, [], extra_targets=["Model/TempFiles.vo"])
+    vlib.proof_stage(ctx, PROP_FILE, ["tempproto"], extra_targets=["Model/TempFiles.vo", "Gen/TempProto.vo"])
+    try:
+        proto = json.load(open(os.path.join(vlib.COQ, "Gen", "tempproto.json")))["proto"]
+    except Exception:
+        proto = "Pcur"
+    ctx.coverage["protocol_of_current_tree"] = proto
     ok, log = vlib.build_s4()
     if not ok:
         ctx.obligation_broken("build", "s4 binary", log)
@@ -273,12 +288,13 @@ def run(ctx):
         if r["left"] != 0:
             h["leaks"] += 1
             cls = []
-            if r["signalled"] and k in ("in_create_window", "early"):
-                cls = ["sigint_before_registration"]
-            if r["signalled"] and k == "many" and r["visible_at_signal"] is not None and r["visible_at_signal"] < c["n_ntf"]:
-                # some sources had not even created their file when the signal was sent:
-                # creation/registration was still in progress
-                cls = ["sigint_before_registration"]
+            if proto != "Pfixed":
+                if r["signalled"] and k in ("in_create_window", "early"):
+                    cls = ["sigint_before_registration"]
+                if r["signalled"] and k == "many" and r["visible_at_signal"] is not None and r["visible_at_signal"] < c["n_ntf"]:
+                    # some sources had not even created their file when the signal was sent:
+                    # creation/registration was still in progress
+                    cls = ["sigint_before_registration"]
             ctx.failure(desc, "no file left in TMPDIR", "%d file(s) left" % r["left"], cls)
         bound = BOUND
         if k == "many":
@@ -286,6 +302,11 @@ def run(ctx):
             bound = max(BOUND, 1.5 * W_PROCS)
             desc["bound_s"] = round(bound, 2)
             desc["n_single_source_processes_together_s"] = round(W_PROCS, 2)
+        if proto == "Pfixed" and k in ("in_create_window", "early"):
+            # the planned after_create delay (1.5 s per delayed source) is slept while the worker holds
+            # the registry lock, and the handler needs that lock: the hook, not the code, delays it
+            bound += 1.5 * c["n_ntf"] + 0.5
+            desc["bound_s"] = round(bound, 2)
         if r["signalled"] and r["latency"] is not None and r["latency"] > bound:
             h["slow"] += 1
             cls = []
@@ -309,22 +330,22 @@ def run(ctx):
         # when did the handler run, relative to the planned 1.5 s delay window that started when the
         # temp file was seen?  inside (fast) / after (slow) / too close to call (skipped)
         fast = True
-        if r["latency"] is not None and c.get("sigint_after_file") is not None and c["kind"] in ("in_create_window", "early"):
+        if proto != "Pfixed" and r["latency"] is not None and c.get("sigint_after_file") is not None and c["kind"] in ("in_create_window", "early"):
             t_handler = c["sigint_after_file"] + r["latency"]
             if 1.35 <= t_handler <= 1.7:
                 ambiguous += 1
                 continue
             fast = t_handler < 1.35
-        evs = model_schedule(c["kind"], c["n_ntf"], fast)
+        evs = model_schedule(c["kind"], c["n_ntf"], fast, proto)
         rows.append("(%d, [%s], %d)" % (c["n_ntf"], "; ".join(evs), r["left"]))
         meta.append((c, r, evs))
     text = (vlib.COQ_PRINT_HDR + "From Coq Require Import List NArith.\nImport ListNotations.\n"
-            "From S4.Model Require Import TempFiles.\n"
+            "From S4.Model Require Import TempFiles.\nFrom S4.Gen Require Import TempProto.\n"
             "Definition cases : list (nat * list event * nat) := [\n%s\n].\n"
             "Fixpoint idx (i : N) (l : list (nat * list event * nat)) : list (N * N) :=\n"
             "  match l with [] => [] | (n, evs, lft) :: r =>\n"
-            "    let m := files (run Pcur (init n) evs) in\n"
-            "    (if andb (Nat.eqb m lft) (exited (run Pcur (init n) evs)) then [] else [(i, N.of_nat m)]) ++ idx (i + 1)%%N r end.\n"
+            "    let m := files (run current_proto (init n) evs) in\n"
+            "    (if andb (Nat.eqb m lft) (exited (run current_proto (init n) evs)) then [] else [(i, N.of_nat m)]) ++ idx (i + 1)%%N r end.\n"
             "Eval vm_compute in (idx 0%%N cases).\n") % ";\n".join(rows)
     rc, out = vlib.coq_eval(os.path.join(CACHE, "cases", "C18"), "cases_000", text)
     pairs = vlib.parse_eval_pairs(out) if rc == 0 else None
@@ -333,7 +354,7 @@ def run(ctx):
     else:
         for i, m in pairs[:3]:
             c, r, evs = meta[i]
-            ctx.obligation_broken("correspondence", "files left by the binary vs Model.TempFiles.run Pcur",
+            ctx.obligation_broken("correspondence", "files left by the binary vs Model.TempFiles.run current_proto",
                                   json.dumps(dict(kind=c["kind"], env=c.get("env", {}), schedule=evs, model_files=m, result=r)))
 
     distinct = len(set((c["kind"], tuple(os.path.basename(f) for f in c["files"]), c.get("sigint_after_file"), c.get("cpu") is not None) for c in cases))
